@@ -1,7 +1,7 @@
 (* C13 - P_pdb raises only the documented errors, for every list of lines. *)
 From Coq Require Import List Bool Arith ZArith Lia.
 From DS Require Import Base.C13_Exn Gen.C13_ExcSpec Model.C13_Common Model.C13_Pdb
-                       Proofs.C13_ExnLemmas Proofs.C13_Xyz Proofs.C13_Pdffit.
+                       Proofs.C13_ExnLemmas Proofs.C13_Shared.
 From Coq Require Import Ascii String.
 Import ListNotations.
 
